@@ -12,7 +12,7 @@ PROP = dict(
                     "notifications) is owned by the generator, other Go-runtime scheduling inside the pipeline is not; oracles are schedule independent; samples the space, does not prove absence."),
         rule=("chain generator (all tx kinds, 4 protocol versions) builds a source chain of 1-10 blocks, the node starts with 0..all of them; "
               "rapid script of 5-50 steps, each either answering any parked BlockByNumber/BlockHeaderLatest request (correct answer from the "
-              "CURRENT chain, injected error of a drawn kind (generic, wrapped context.DeadlineExceeded, wrapped context.Canceled, net time-out; the stream context stays alive), one of 11 corruptions from the C02 table, a head the source had earlier, the header of a canonical block "
+              "CURRENT chain, injected error of a drawn kind (generic, wrapped context.DeadlineExceeded, wrapped context.Canceled, net time-out; the stream context stays alive), one of 11 corruptions from the C02 table (requests below the node's head = revertTask's comparison fetches get corrupt answers three times as often, half of them claiming another hash consistently in block and state update), a head the source had earlier, the header of a canonical block "
               "below the tip (lagging replica, 10% of the latest-header answers), or - 18% of the block answers, 32% when the request is above the source's "
               "tip - a WRONG-BUT-VALID answer: a genuine block, valid in isolation, that is not the one asked for; its kind is drawn uniformly among the "
               "kinds available at that moment: held-head (the node's current head: stale replica answering h+1 with h), held-below-head, "
